@@ -12,6 +12,7 @@ Section SpecInd.
   Hypothesis HSeq : forall cs, Forall P cs -> P (SSeq cs).
   Hypothesis HCatch : forall c, P c -> P (SCatch c).
   Hypothesis HAll : forall cs, Forall P cs -> P (SAll cs).
+  Hypothesis HAllRec : forall cs, Forall P cs -> P (SAllRec cs).
   Fixpoint spec_ind' (s : spec) : P s :=
     match s with
     | SLeaf z => HLeaf z
@@ -22,6 +23,8 @@ Section SpecInd.
                                        | [] => Forall_nil _ | x :: r => Forall_cons _ (spec_ind' x) (go r) end) cs)
     | SCatch c => HCatch c (spec_ind' c)
     | SAll cs => HAll cs ((fix go l := match l return Forall P l with
+                                       | [] => Forall_nil _ | x :: r => Forall_cons _ (spec_ind' x) (go r) end) cs)
+    | SAllRec cs => HAllRec cs ((fix go l := match l return Forall P l with
                                        | [] => Forall_nil _ | x :: r => Forall_cons _ (spec_ind' x) (go r) end) cs)
     end.
 End SpecInd.
@@ -60,6 +63,27 @@ Lemma admb_all cs o : admb (SAll cs) o =
 Proof.
   destruct o as [[z|vs|e]|e]; try reflexivity;
     cbn [admb]; induction cs as [|c cs IH]; cbn [kosk]; try reflexivity; now rewrite IH.
+Qed.
+
+Fixpoint recgo (cs : list spec) (encs : list val) : bool :=
+  match cs, encs with
+  | [], [] => true
+  | c :: cs', VList [VInt t; x] :: r =>
+      (if Z.eqb t 0 then admb c (Ok x)
+       else if Z.eqb t 1 then match x with VInt e => admb c (Ko e) | _ => false end
+       else false) && recgo cs' r
+  | _, _ => false
+  end.
+Definition hasko (encs : list val) : bool :=
+  existsb (fun x => match x with VList [VInt t; VInt _] => Z.eqb t 1 | _ => false end) encs.
+
+Lemma admb_allrec cs o : admb (SAllRec cs) o =
+  match o with
+  | Ok (VList vs) => okgo cs vs || match vs with [VInt m; VList encs] => Z.eqb m (-1) && recgo cs encs && hasko encs | _ => false end
+  | _ => false
+  end.
+Proof.
+  destruct o as [[z|vs|e]|e]; reflexivity.
 Qed.
 
 Lemma fails_list p cs : fails (SList p cs) = failsex cs.
@@ -107,27 +131,43 @@ Proof.
   - eapply IH; eauto.
 Qed.
 
+Lemma l_some_outs cs : Forall FS cs -> exists outs, Forall2 (fun c o => adm c o) cs outs.
+Proof.
+  induction 1 as [|c cs Hc _ IH]; [exists []; constructor|]. destruct IH as (outs & Ho).
+  destruct (fails c) eqn:F.
+  - destruct (proj1 Hc F) as [(e & He) _]. exists (Ko e :: outs). constructor; auto.
+  - destruct (proj2 Hc F) as [(v & Hv) _]. exists (Ok v :: outs). constructor; auto.
+Qed.
+
+Lemma outs_all_ok cs outs : Forall2 (fun c o => adm c o) cs outs ->
+  existsb (fun o => match o with Ko _ => true | _ => false end) outs = false ->
+  exists vs, Forall2 (fun c v => adm c (Ok v)) cs vs.
+Proof.
+  induction 1 as [|c o cs outs Hc _ IH]; simpl; intros Hx; [exists []; constructor|].
+  destruct o as [v|e]; [|discriminate]. destruct (IH Hx) as (vs & Hvs). exists (v :: vs). constructor; auto.
+Qed.
+
 Lemma fails_spec s : FS s.
 Proof.
-  induction s as [z|e|p cs IH|cs IH|c IH|cs IH] using spec_ind'; unfold FS.
+  induction s as [z|e|p cs IH|cs IH|c IH|cs IH|cs IH] using spec_ind'; unfold FS.
   - split; [discriminate|]. intros _. split; [eexists; constructor|]. intros e H; inversion H.
   - split; [|discriminate]. intros _. split; [eexists; constructor|]. intros v H; inversion H.
   - rewrite fails_list. split; intros Hf.
     + split.
       * destruct (l_first_fail cs IH Hf) as (pre & c & post & vs & e & -> & _ & Hc).
         exists e. apply (adm_list_ko p _ c e); auto. apply in_or_app. right. now left.
-      * intros v H. inversion H as [ | |p0 cs0 vs0 HF| | | | | | | ]; subst. eapply l_no_ok; eauto.
+      * intros v H. inversion H as [ | |p0 cs0 vs0 HF| | | | | | | | | ]; subst. eapply l_no_ok; eauto.
     + split.
       * destruct (l_all_ok cs IH Hf) as (vs & Hvs). eexists. apply adm_list_ok. exact Hvs.
-      * intros e H. inversion H as [ | | |p0 cs0 c0 e0 Hin Hc| | | | | | ]; subst. eapply l_no_ko; eauto.
+      * intros e H. inversion H as [ | | |p0 cs0 c0 e0 Hin Hc| | | | | | | | ]; subst. eapply l_no_ko; eauto.
   - rewrite fails_seq. split; intros Hf.
     + split.
       * destruct (l_first_fail cs IH Hf) as (pre & c & post & vs & e & -> & Hpre & Hc).
         exists e. eapply adm_seq_ko; eauto.
-      * intros v H. inversion H as [ | | | |cs0 vs0 HF| | | | | ]; subst. eapply l_no_ok; eauto.
+      * intros v H. inversion H as [ | | | |cs0 vs0 HF| | | | | | | ]; subst. eapply l_no_ok; eauto.
     + split.
       * destruct (l_all_ok cs IH Hf) as (vs & Hvs). eexists. apply adm_seq_ok. exact Hvs.
-      * intros e H. inversion H as [ | | | | |cs0 pre c0 post vs0 e0 Heq Hpre Hc| | | | ]; subst.
+      * intros e H. inversion H as [ | | | | |cs0 pre c0 post vs0 e0 Heq Hpre Hc| | | | | | ]; subst.
         eapply (l_no_ko _ IH Hf c0 e); eauto. apply in_or_app. right. now left.
   - split; [discriminate|]. intros _. split.
     + destruct (fails c) eqn:Fc.
@@ -138,11 +178,18 @@ Proof.
     + split.
       * destruct (l_first_fail cs IH Hf) as (pre & c & post & vs & e & -> & Hpre & Hc).
         exists e. eapply adm_all_ko; eauto.
-      * intros v H. inversion H as [ | | | | | | | |cs0 vs0 HF| ]; subst. eapply l_no_ok; eauto.
+      * intros v H. inversion H as [ | | | | | | | |cs0 vs0 HF| | | ]; subst. eapply l_no_ok; eauto.
     + split.
       * destruct (l_all_ok cs IH Hf) as (vs & Hvs). eexists. apply adm_all_ok. exact Hvs.
-      * intros e H. inversion H as [ | | | | | | | | |cs0 pre c0 post vs0 e0 Heq Hpre Hc]; subst.
+      * intros e H. inversion H as [ | | | | | | | | |cs0 pre c0 post vs0 e0 Heq Hpre Hc| | ]; subst.
         eapply (l_no_ko _ IH Hf c0 e); eauto. apply in_or_app. right. now left.
+  - split; [discriminate|]. intros _. split.
+    + destruct (l_some_outs cs IH) as (outs & Houts).
+      destruct (existsb (fun o => match o with Ko _ => true | _ => false end) outs) eqn:Ex.
+      * apply existsb_exists in Ex. destruct Ex as ([v|e] & Hin & Hk); [discriminate|].
+        eexists. eapply adm_allrec_rec; eauto.
+      * destruct (outs_all_ok cs outs Houts Ex) as (vs & Hvs). eexists. apply adm_allrec_ok. exact Hvs.
+    + intros e H. inversion H.
 Qed.
 
 Lemma fails_false_no_ko s e : fails s = false -> ~ adm s (Ko e).
@@ -197,9 +244,43 @@ Proof.
       * apply IH. eauto 8.
 Qed.
 
+Lemma recgo_spec cs : Forall DEC cs -> forall encs,
+  recgo cs encs = true <-> exists outs, Forall2 (fun c o => adm c o) cs outs /\ encs = map enc outs.
+Proof.
+  induction 1 as [|c cs Hc _ IH]; intros encs.
+  - destruct encs; simpl; split; intros H; try discriminate.
+    + exists []. split; [constructor|reflexivity].
+    + reflexivity.
+    + destruct H as (outs & Ho & E). inversion Ho; subst. discriminate.
+  - split.
+    + intros H. destruct encs as [|x r]; [discriminate|]. cbn [recgo] in H.
+      destruct x as [z|l|e]; try discriminate. destruct l as [|a l']; try discriminate.
+      destruct a as [t|?|?]; try discriminate. destruct l' as [|b [|? ?]]; try discriminate.
+      apply andb_true_iff in H. destruct H as [Hh Hr].
+      apply IH in Hr. destruct Hr as (outs & Ho & ->).
+      destruct (Z.eqb_spec t 0) as [->|N0].
+      * exists (Ok b :: outs). split; [constructor; auto; apply Hc; exact Hh|reflexivity].
+      * destruct (Z.eqb_spec t 1) as [->|N1]; [|discriminate]. destruct b as [e| |]; try discriminate.
+        exists (Ko e :: outs). split; [constructor; auto; apply Hc; exact Hh|reflexivity].
+    + intros (outs & Ho & ->). inversion Ho as [|? o ? outs' Hco Hrest]; subst. cbn [map]. destruct o as [v|e]; cbn [enc recgo].
+      * rewrite Z.eqb_refl. apply andb_true_iff. split; [apply Hc; exact Hco|apply IH; eauto].
+      * change (1 =? 0)%Z with false. rewrite Z.eqb_refl. apply andb_true_iff. split; [apply Hc; exact Hco|apply IH; eauto].
+Qed.
+
+Lemma hasko_spec outs : hasko (map enc outs) = true <-> exists e, In (Ko e) outs.
+Proof.
+  unfold hasko. induction outs as [|o r IH]; simpl; split.
+  - discriminate.
+  - intros (e & []).
+  - intros H. apply orb_true_iff in H. destruct H as [H|H].
+    + destruct o as [v|e]; [destruct v; discriminate|]. exists e. now left.
+    + apply IH in H. destruct H as (e & He). exists e. now right.
+  - intros (e & [->|Hin]); apply orb_true_iff; [left; reflexivity|right; apply IH; eauto].
+Qed.
+
 Theorem admb_adm s : DEC s.
 Proof.
-  induction s as [z|e|p cs IH|cs IH|c IH|cs IH] using spec_ind'; intros o.
+  induction s as [z|e|p cs IH|cs IH|c IH|cs IH|cs IH] using spec_ind'; intros o.
   - destruct o as [[z'|l0|e']|e']; simpl; split; intros H; try discriminate; try (inversion H; fail).
     + apply Z.eqb_eq in H. subst. constructor.
     + inversion H; subst. apply Z.eqb_refl.
@@ -212,34 +293,47 @@ Proof.
       split; intros H.
       * apply andb_true_iff in H. destruct H as [H1 H2]. apply Z.eqb_eq in H1. subst.
         apply adm_list_ok. apply (okgo_spec cs IH). exact H2.
-      * inversion H as [ | |p0 cs0 vs0 HF| | | | | | | ]; subst. apply andb_true_iff. split; [apply Z.eqb_refl|].
+      * inversion H as [ | |p0 cs0 vs0 HF| | | | | | | | | ]; subst. apply andb_true_iff. split; [apply Z.eqb_refl|].
         apply (okgo_spec cs IH). exact HF.
     + split; [discriminate|inversion 1].
     + rewrite (koex_spec e' cs IH). split.
       * intros (c & Hin & Hc). eapply adm_list_ko; eauto.
-      * intros H. inversion H as [ | | |p0 cs0 c0 e0 Hin Hc| | | | | | ]; subst. eauto.
+      * intros H. inversion H as [ | | |p0 cs0 c0 e0 Hin Hc| | | | | | | | ]; subst. eauto.
   - rewrite admb_seq. destruct o as [[z'|vs|e']|e'].
     + split; [discriminate|inversion 1].
     + rewrite (okgo_spec cs IH). split; intros H; [now apply adm_seq_ok|].
-      inversion H as [ | | | |cs0 vs0 HF| | | | | ]; subst. exact HF.
+      inversion H as [ | | | |cs0 vs0 HF| | | | | | | ]; subst. exact HF.
     + split; [discriminate|inversion 1].
     + rewrite (kosk_spec e' cs IH). split.
       * intros (pre & c & post & vs & E & Hpre & Hc). eapply adm_seq_ko; eauto.
-      * intros H. inversion H as [ | | | | |cs0 pre c0 post vs0 e0 Heq Hpre Hc| | | | ]; subst. eauto 8.
+      * intros H. inversion H as [ | | | | |cs0 pre c0 post vs0 e0 Heq Hpre Hc| | | | | | ]; subst. eauto 8.
   - destruct o as [v|e']; cbn [admb].
     + split; intros H.
       * apply orb_true_iff in H. destruct H as [H|H]; [apply adm_catch_ok; apply IH; exact H|].
         destruct v as [z|l0|e]; try discriminate. apply adm_catch_ko. apply IH. exact H.
-      * apply orb_true_iff. inversion H as [ | | | | | |c0 v0 Hc|c0 e0 Hc| | ]; subst.
+      * apply orb_true_iff. inversion H as [ | | | | | |c0 v0 Hc|c0 e0 Hc| | | | ]; subst.
         -- left. apply IH. exact Hc.
         -- right. apply IH. exact Hc.
     + split; [discriminate|inversion 1].
   - rewrite admb_all. destruct o as [[z'|vs|e']|e'].
     + split; [discriminate|inversion 1].
     + rewrite (okgo_spec cs IH). split; intros H; [now apply adm_all_ok|].
-      inversion H as [ | | | | | | | |cs0 vs0 HF| ]; subst. exact HF.
+      inversion H as [ | | | | | | | |cs0 vs0 HF| | | ]; subst. exact HF.
     + split; [discriminate|inversion 1].
     + rewrite (kosk_spec e' cs IH). split.
       * intros (pre & c & post & vs & E & Hpre & Hc). eapply adm_all_ko; eauto.
-      * intros H. inversion H as [ | | | | | | | | |cs0 pre c0 post vs0 e0 Heq Hpre Hc]; subst. eauto 8.
+      * intros H. inversion H as [ | | | | | | | | |cs0 pre c0 post vs0 e0 Heq Hpre Hc| | ]; subst. eauto 8.
+  - rewrite admb_allrec. destruct o as [[z'|vs|e']|e']; try (split; [discriminate|inversion 1]).
+    split.
+    + intros H. apply orb_true_iff in H. destruct H as [H|H].
+      * apply adm_allrec_ok. apply (okgo_spec cs IH). exact H.
+      * destruct vs as [|[m|l0|e0] [|[z1|encs|e1] [|? ?]]]; try discriminate.
+        apply andb_true_iff in H. destruct H as [H Hk]. apply andb_true_iff in H. destruct H as [Hm Hr].
+        apply Z.eqb_eq in Hm. subst m. apply (recgo_spec cs IH) in Hr. destruct Hr as (outs & Ho & ->).
+        apply hasko_spec in Hk. destruct Hk as (e & He). exact (adm_allrec_rec cs outs e Ho He).
+    + intros H. apply orb_true_iff.
+      inversion H as [ | | | | | | | | | |cs0 vs0 HF|cs0 outs e0 Ho He]; subst.
+      * left. apply (okgo_spec cs IH). exact HF.
+      * right. unfold rec_value. rewrite Z.eqb_refl. cbn [andb].
+        apply andb_true_iff. split; [apply (recgo_spec cs IH); eauto|apply hasko_spec; eauto].
 Qed.
